@@ -1,6 +1,6 @@
 (** C01, layer 4: query -> match tree (newMatchTree, newSubstringMatchTree / iterateNgrams, regexpToMatchTreeRecursive),
     constant folding, expansion, and the top-level theorem. *)
-From ZV Require Import Lib.Base Model.SearchCore Proofs.SearchCoreText Proofs.SearchCoreTree Proofs.SearchCoreLoop Proofs.SearchCoreSelect.
+From ZV Require Import Lib.Base Model.SearchCore Proofs.SearchCoreText Proofs.SearchCoreTree Proofs.SearchCoreLoop Proofs.SearchCoreSelect Proofs.SearchCoreSym.
 From Coq Require Import Sorting.Sorted ZifyBool.
 
 (* ------------------------------------------------------------------ induction principles for nested syntax *)
@@ -57,6 +57,8 @@ Fixpoint Q_ind' (q : Q) : P q :=
   | QBranchesRepos l => Hatom (QBranchesRepos l) I
   | QLang nm => Hatom (QLang nm) I
   | QFileNameSet s => Hatom (QFileNameSet s) I
+  | QSymSubstr p cs => Hatom (QSymSubstr p cs) I
+  | QSymRegexp rid r tf cs => Hatom (QSymRegexp rid r tf cs) I
   end.
 End QInd.
 
@@ -246,6 +248,17 @@ Fixpoint re_ok (q : Q) : Prop :=
       if isEq then sem k sub = re_match rid txt
       else (re_match rid txt = true -> sem k sub = true) /\
            match word_of r tf cs with Some w => re_match rid txt = word_found tolower w txt | None => True end
+  | QSymSubstr _ _ => forall k, k < n -> secs_ok (length (text_of c false k)) (d_secs (doc_at c k))
+  | QSymRegexp rid r tf cs =>
+      forall k, k < n ->
+      let txt := text_of c false k in
+      secs_ok (length txt) (d_secs (doc_at c k)) /\
+      let '(sub, isEq, _) := distill orbit c freq cs false r in
+      match isEq, sub with
+      | true, MTsubstr s => forall sec, In sec (d_secs (doc_at c k)) ->
+                            contains tolower (sl_cs s) (sl_pat s) (slice txt sec) = re_match rid (slice txt sec)
+      | _, _ => True
+      end
   | QAnd l => (fix all (l : list Q) : Prop := match l with [] => True | x :: r => re_ok x /\ all r end) l
   | QOr l => (fix all (l : list Q) : Prop := match l with [] => True | x :: r => re_ok x /\ all r end) l
   | QNot q' => re_ok q'
@@ -268,6 +281,16 @@ Definition build_ok (q : Q) : Prop :=
 Lemma text_sel_ne : forall fn ct f d, fn <> ct ->
   text_sel fn ct f d = f (if fn then d_name d else d_content d).
 Proof. intros fn ct f d H. unfold text_sel. destruct fn, ct; simpl; try reflexivity; congruence. Qed.
+
+(** the symbol-substring node decides "the pattern occurs in the text of one section" *)
+Lemma symsub_holds : forall p cs k,
+  secs_ok (length (text_of c false k)) (d_secs (doc_at c k)) ->
+  scan_holds re_match tolower c (SKsymsub p cs) k =
+  existsb (fun sec => contains tolower cs p (slice (text_of c false k) sec)) (d_secs (doc_at c k)).
+Proof.
+  intros p cs k Hs. simpl. destruct (length p <? 3) eqn:E; [reflexivity|].
+  apply sym_trim_spec; [lia|exact Hs].
+Qed.
 
 Theorem build_spec : forall q, buildable q -> re_ok q -> build_ok q.
 Proof.
@@ -321,5 +344,21 @@ Proof.
       rewrite branches_fold. rewrite N.land_0_r. simpl. rewrite negb_involutive. reflexivity.
     + (* language *) simpl build. simpl eval. destruct (lang_code c name); simpl; auto.
     + simpl. auto.
+    + (* Symbol{Substring} *) simpl build. split; [reflexivity|]. split; [exact I|]. intros k Hk _.
+      simpl in Hr. specialize (Hr k Hk).
+      transitivity (scan_holds re_match tolower c (SKsymsub p cs) k); [reflexivity|].
+      rewrite symsub_holds by auto. simpl eval. rewrite text_of_doc. reflexivity.
+    + (* Symbol{Regexp} *) simpl in Hr. simpl build.
+      pose proof (distill_spec cs false r) as Hd.
+      destruct (distill orbit c freq cs false r) as [[sub isEq] sl].
+      assert (Hre : forall k, k < n -> sem k (MTscan (SKsymre rid) None) = eval re_match tolower c (QSymRegexp rid r topfold cs) (doc_at c k)).
+      { intros k Hk. simpl. rewrite text_of_doc. reflexivity. }
+      destruct isEq; [destruct sub|];
+        try (split; [reflexivity|]; split; [exact I|]; intros k' Hk' _; exact (Hre k' Hk')).
+      (* the distilled tree is one substring leaf, equivalent to the regexp *)
+      split; [reflexivity|]. split; [exact I|]. intros k Hk _. destruct (Hr k Hk) as [Hs He].
+      transitivity (scan_holds re_match tolower c (SKsymsub (sl_pat s) (sl_cs s)) k); [reflexivity|].
+      rewrite symsub_holds by auto. simpl eval. rewrite text_of_doc in *.
+      apply existsb_ext_in. intros sec Hsec. apply He. exact Hsec.
 Qed.
 End Build.
